@@ -13,11 +13,11 @@ import (
 
 // slot outcome classes
 const (
-	zzC28Route = iota // the slot holds an encoded route (tunnel address symbolic: local or remote)
-	zzC28Empty        // the slot holds no value (nil or zero-length)
-	zzC28Error        // the lookup of the slot fails
-	zzC28Raw          // the slot holds arbitrary bytes (decodable or not, decided by the decoder itself)
-	zzC28Classes
+	zzC28Route   = iota // the slot holds an encoded route (tunnel address symbolic: local or remote)
+	zzC28Empty          // the slot holds no value (nil or zero-length)
+	zzC28Error          // the lookup of the slot fails
+	zzC28Garbage        // the slot holds a fixed value that is not a route encoding (truncated varint)
+	zzC28Raw            // the slot holds arbitrary bytes (decodable or not, decided by the decoder itself)
 )
 
 // zzC28All replaces promise.All in the obligations that are about classification only (promise.All itself is C46):
@@ -68,6 +68,7 @@ type zzC28Slots struct {
 }
 
 // zzC28Setup builds a server whose chord KV holds the three route slots of host, each in the given outcome class.
+// rawMax < 0: empty slots are nil (no case split on nil vs zero-length).
 func zzC28Setup(kv *zzKV, host, local string, class [3]int, rawMax int) *zzC28Slots {
 	z := &zzC28Slots{kv: kv, host: host, local: local, class: class}
 	digits := []string{"1", "2", "3"}
@@ -80,7 +81,7 @@ func zzC28Setup(kv *zzKV, host, local string, class [3]int, rawMax int) *zzC28Sl
 		case zzC28Route:
 			route := &protocol.TunnelRoute{
 				ClientDestination: &protocol.Node{Id: uint64(k + 1), Address: "client"},
-				ChordDestination:  &protocol.Node{Id: rt.U64("chord-id")},
+				ChordDestination:  &protocol.Node{Id: uint64(10 * (k + 1)), Address: "chord"},
 				TunnelDestination: &protocol.Node{Address: string(rt.BytesN("tunnel-addr", 1))},
 				Hostname:          host,
 			}
@@ -88,11 +89,13 @@ func zzC28Setup(kv *zzKV, host, local string, class [3]int, rawMax int) *zzC28Sl
 			rt.Assert(merr == nil, "harness: route encodes")
 			val = b
 		case zzC28Empty:
-			if rt.Fork("empty-non-nil") {
+			if rawMax >= 0 && rt.Fork("empty-non-nil") {
 				val = []byte{}
 			}
 		case zzC28Error:
 			err = zzKVFailed
+		case zzC28Garbage:
+			val = []byte{0xff, 0xff}
 		case zzC28Raw:
 			val = rt.Bytes("raw", rawMax)
 			rt.Assume(len(val) > 0)
@@ -203,12 +206,8 @@ func (z *zzC28Slots) check(routes []*protocol.TunnelRoute, rerr error, ttl time.
 	return 2
 }
 
-// zzC28Classify: one loader call, every combination of slot outcome classes.
-func zzC28Classify(classes int) {
-	var class [3]int
-	for k := range class {
-		class[k] = rt.Choose("class", classes)
-	}
+// zzC28Run: one loader call with the given slot classes.
+func zzC28Run(class [3]int) {
 	host := string(rt.BytesN("host", 2))
 	local := string(rt.BytesN("local-addr", 1))
 	z := zzC28Setup(&zzKV{}, host, local, class, rt.Bound("RAW"))
@@ -235,26 +234,67 @@ func zzC28Classify(classes int) {
 	rt.Reach("end")
 }
 
-// ZZ_C28_Classify: route / empty / error / raw bytes per slot, lookups run one after the other.
-func ZZ_C28_Classify() { zzC28Classify(zzC28Classes) }
+// ZZ_C28_Classify: every combination of route (local or remote) / empty / error / garbage per slot (4^3); the three
+// lookups run one after the other (promise.All substituted).
+func ZZ_C28_Classify() {
+	var class [3]int
+	for k := range class {
+		class[k] = rt.Choose("class", zzC28Garbage+1)
+	}
+	zzC28Run(class)
+}
 
-// ZZ_C28_Concurrent: the real promise.All and the real context.WithTimeout under the goroutine scheduler;
-// route / empty / error per slot.
-func ZZ_C28_Concurrent() { zzC28Classify(zzC28Raw) }
+// ZZ_C28_Undecodable: one slot (any of the three) holds 1..RAW arbitrary bytes, the other two are route / empty / error.
+func ZZ_C28_Undecodable() {
+	var class [3]int
+	raw := rt.Choose("raw-slot", 3)
+	for k := range class {
+		if k == raw {
+			class[k] = zzC28Raw
+		} else {
+			class[k] = rt.Choose("class", zzC28Error+1)
+		}
+	}
+	zzC28Run(class)
+	if rt.Bound("RAW") >= 2 {
+		rt.Reach("raw-bound-2")
+	}
+}
+
+// ZZ_C28_Concurrent: the real promise.All and the real context.WithTimeout under the goroutine scheduler (the
+// timeout may fire at any scheduling point). Bound ALL=1: route / empty / error per slot (27 combinations); ALL=0: the
+// three representative combinations route+empty+error, all empty, error+error+route.
+func ZZ_C28_Concurrent() {
+	var class [3]int
+	if rt.Bound("ALL") == 1 {
+		for k := range class {
+			class[k] = rt.Choose("class", zzC28Error+1)
+		}
+	} else {
+		class = [][3]int{{zzC28Route, zzC28Empty, zzC28Error}, {zzC28Empty, zzC28Empty, zzC28Empty}, {zzC28Error, zzC28Error, zzC28Route}}[rt.Choose("combination", 3)]
+	}
+	zzC28Run(class)
+}
 
 // ZZ_C28_TTLOrder: three lookups on one server - a host whose slots are all empty, a host whose slots all fail, a host
 // with at least one decodable route - and the cache lifetimes the loader assigns to the three results.
 func ZZ_C28_TTLOrder() {
 	kv := &zzKV{}
 	local := string(rt.BytesN("local-addr", 1))
-	neg := zzC28Setup(kv, "n.example", local, [3]int{zzC28Empty, zzC28Empty, zzC28Empty}, 0)
+	neg := zzC28Setup(kv, "n.example", local, [3]int{zzC28Empty, zzC28Empty, zzC28Empty}, -1)
+	// f: every slot fails, either by lookup error or by an undecodable value; p: one slot (any) holds a route, the other
+	// two are both routes, both empty or both failing
 	var fc, pc [3]int
+	fcls := zzC28Error + rt.Choose("failed-class", 2)
+	routeSlot := rt.Choose("route-slot", 3)
+	others := rt.Choose("other-class", zzC28Error+1)
 	for k := 0; k < 3; k++ {
-		fc[k] = zzC28Error + rt.Choose("failed-class", 2) // error or raw
-		pc[k] = rt.Choose("positive-class", zzC28Raw)     // route, empty or error
+		fc[k] = fcls
+		pc[k] = others
 	}
-	fail := zzC28Setup(kv, "f.example", local, fc, rt.Bound("RAW"))
-	pos := zzC28Setup(kv, "p.example", local, pc, 0)
+	pc[routeSlot] = zzC28Route
+	fail := zzC28Setup(kv, "f.example", local, fc, -1)
+	pos := zzC28Setup(kv, "p.example", local, pc, -1)
 	rt.Assume(rt.And(fail.ref[0] == nil, fail.ref[1] == nil, fail.ref[2] == nil)) // every slot of f fails
 	rt.Assume(rt.Or(pos.ref[0] != nil, pos.ref[1] != nil, pos.ref[2] != nil))     // p has a decodable route
 
